@@ -2,12 +2,12 @@
    (hierarchy, enum member), for comparison with the live configuration objects. *)
 From Coq Require Import NArith List String.
 From BU Require Import Base.Exn Base.Val Extract.ApiCommon.
-From BU Require Lemmas.Bip44Registry.
+From BU Require Model.Bip44RegistryIdx.
 Import ListNotations.
 Open Scope string_scope.
 
 Definition api (ask : string -> list val -> val) : list api_entry := [
   ("registry_coin_idx", fun a => match a with [VN hid; VB member] =>
-      match Bip44Registry.registry_coin_idx hid member with
+      match Bip44RegistryIdx.registry_coin_idx hid member with
       | Some i => Ok (VN i) | None => Err KeyError end | _ => bad_call end)
 ].
